@@ -404,7 +404,7 @@ func VerifH_C01_completion() {
 	var body string
 	var want Value
 	brk := false
-	sel := verifChoose(13)
+	sel := verifChoose(17)
 	if sel == 2 || sel == 8 {
 		n = verifChoose(4)
 	}
@@ -448,6 +448,26 @@ func VerifH_C01_completion() {
 		body, want, brk = "l: { x; if (c) break l; y }", numV(y), true
 		if c {
 			want = numV(x)
+		}
+	case 13: // the value produced inside a nested block travels with break / continue
+		body, want, brk = "x; do { 1; { y; if (c) break } 7 } while (false)", numV(7), true
+		if c {
+			want = numV(y)
+		}
+	case 14:
+		body, want, brk = "x; for (var i = 0; i < 2; i++) { { y; if (c) continue } 9 }", numV(9), true
+		if c {
+			want = numV(y)
+		}
+	case 15:
+		body, want, brk = "x; switch (1) { case 1: { y; if (c) break } 5 }", numV(5), true
+		if c {
+			want = numV(y)
+		}
+	case 16:
+		body, want, brk = "l: { x; { y; if (c) break l } 6 }", numV(6), true
+		if c {
+			want = numV(y)
 		}
 	default:
 		body, want, brk = "x; do { y; if (c) break; 7 } while (false)", numV(7), true
